@@ -133,3 +133,34 @@ Print Assumptions gen_general_cubic_inner_eq.
 Print Assumptions gen_general_cubic_outer_eq.
 Print Assumptions gen_general_quartic_outer_eq.
 Print Assumptions gen_general_quartic_inner_eq.
+
+(* ---- wiring: the integration table and the wrappers, as extracted from the source ---- *)
+From Coq Require Import String List.
+Import ListNotations.
+Open Scope string_scope.
+(* every documented expression is routed to the method of the same name *)
+Theorem dispatch_table_ok : dispatch =
+  [("1", "integral"); ("x", "integrate_x"); ("(Ax+a)", "integrate_general_linear"); ("xx'", "integrate_xxT");
+   ("(Ax+a)'(Bx+b)", "integrate_general_quadratic_inner"); ("(Ax+a)(Bx+b)'", "integrate_general_quadratic_outer");
+   ("(Ax+a)(Bx+b)'(Cx+c)", "integrate_general_cubic_inner"); ("(Ax+a)'(Bx+b)(Cx+c)'", "integrate_general_cubic_outer");
+   ("x(A'x + a)x'", "integrate_cubic_outer"); ("xb'xx'", "integrate_xbxx");
+   ("(Ax+a)'(Bx+b)(Cx+c)'(Dx+d)", "integrate_general_quartic_inner"); ("(Ax+a)(Bx+b)'(Cx+c)(Dx+d)'", "integrate_general_quartic_outer");
+   ("log u(x)", "integrate_log_factor")].
+Proof. reflexivity. Qed.
+(* every general wrapper passes each (matrix, vector) pair through _get_default, takes the total mass, and returns mass * the
+   expectation of the SAME expression with the arguments in their declared order (the translator has checked the shape
+   "constant = self.integral(); return constant[...] * self._expectation_*(...)" of the body) *)
+Definition expected_wrapper (key wr ex : string) (n : nat) : string * string * string * list string * list string :=
+  let names := firstn (2 * n) ["A_mat"; "a_vec"; "B_mat"; "b_vec"; "C_mat"; "c_vec"; "D_mat"; "d_vec"] in
+  (key, wr, ex, names, names).
+Theorem wrappers_ok : wrappers =
+  [expected_wrapper "(Ax+a)" "integrate_general_linear" "_expectation_general_linear" 1;
+   expected_wrapper "(Ax+a)'(Bx+b)" "integrate_general_quadratic_inner" "_expectation_general_quadratic_inner" 2;
+   expected_wrapper "(Ax+a)(Bx+b)'" "integrate_general_quadratic_outer" "_expectation_general_quadratic_outer" 2;
+   expected_wrapper "(Ax+a)(Bx+b)'(Cx+c)" "integrate_general_cubic_inner" "_expectation_general_cubic_inner" 3;
+   expected_wrapper "(Ax+a)'(Bx+b)(Cx+c)'" "integrate_general_cubic_outer" "_expectation_general_cubic_outer" 3;
+   expected_wrapper "(Ax+a)'(Bx+b)(Cx+c)'(Dx+d)" "integrate_general_quartic_inner" "_expectation_general_quartic_inner" 4;
+   expected_wrapper "(Ax+a)(Bx+b)'(Cx+c)(Dx+d)'" "integrate_general_quartic_outer" "_expectation_general_quartic_outer" 4].
+Proof. reflexivity. Qed.
+Print Assumptions dispatch_table_ok.
+Print Assumptions wrappers_ok.
